@@ -89,7 +89,107 @@ def load_known():
     return findings, fixed
 
 
-def run_property(prop, tier, rules, out=print, root=None, evdir=None):
+def self_validate(prop, rules):
+    """Thorough tier only: run this property's rules over the variant corpus (single-edit variants and seeded
+    changes applied to scratch copies of the current tree) and compare with the frozen expectations.  This
+    validates the checker, not the tree: a mismatch is reported but never changes the verdict."""
+    import glob
+    import multiprocessing as mp
+    import re
+    import shutil
+    import subprocess
+    import tempfile
+
+    st = os.path.join(VERIF, "selftest")
+    try:
+        expect = json.load(open(os.path.join(st, "expect.json")))
+    except (OSError, ValueError):
+        return None
+    variants = []
+    for pth in sorted(glob.glob(os.path.join(st, "survey", "b*.json"))) + [os.path.join(st, "extra.json")]:
+        if os.path.exists(pth):
+            for x in json.load(open(pth)):
+                variants.append(("edit", x[0], x[1], x[2], x[3], x[4] if len(x) > 4 else None))
+    seeded = os.path.join(VERIF, "seeded")
+    if os.path.isdir(seeded):
+        for sid in sorted(os.listdir(seeded)):
+            mp_ = os.path.join(seeded, sid, "meta.json")
+            if os.path.exists(mp_):
+                meta = json.load(open(mp_))
+                variants.append(("patch", sid, os.path.join(seeded, sid, "patch.diff"), meta.get("property"), None, None))
+    jobs = []
+    for v in variants:
+        if v[0] == "edit":
+            e = expect.get(v[1])
+            if e is None:
+                continue
+            if e.get("silent") or prop in e.get("fire", []):
+                jobs.append((v, "silent" if e.get("silent") else "fire"))
+        else:
+            if v[3] == prop:
+                jobs.append((v, "fire"))
+    results = _pool_map(_sv_one, [(prop, rules_id(rules), v, want, repo_root()) for v, want in jobs])
+    return results
+
+
+def rules_id(rules):
+    return [r[0] for r in rules]
+
+
+def repo_root():
+    from .model import repo_root as rr
+
+    return rr()
+
+
+def _pool_map(fn, items):
+    import multiprocessing as mp
+
+    if not items:
+        return []
+    with mp.Pool(min(16, len(items))) as pool:
+        return pool.map(fn, items)
+
+
+def _sv_one(arg):
+    import re
+    import shutil
+    import subprocess
+    import tempfile
+
+    from .rules import rules_for
+
+    prop, rids, v, want, root = arg
+    tmp = tempfile.mkdtemp(prefix="ovldlint-sv-")
+    try:
+        shutil.copytree(os.path.join(root, "src", "ovld"), os.path.join(tmp, "src", "ovld"))
+        if v[0] == "edit":
+            _, name, file, old, new, mode = v
+            path = os.path.join(tmp, file)
+            s = open(path).read()
+            if mode == "word":
+                if not re.search(r"\b%s\b" % re.escape(old), s):
+                    return (name, want, "skipped")
+                s = re.sub(r"\b%s\b" % re.escape(old), new, s)
+            else:
+                if old not in s:
+                    return (name, want, "skipped")
+                s = s.replace(old, new, 1)
+            open(path, "w").write(s)
+        else:
+            name = v[1]
+            subprocess.run(["git", "init", "-q"], cwd=tmp, capture_output=True)
+            ap = subprocess.run(["git", "apply", "--whitespace=nowarn", v[2]], cwd=tmp, capture_output=True, text=True)
+            if ap.returncode != 0:
+                return (name, want, "skipped")
+        rc = run_property(prop, "thorough", rules_for(prop), out=lambda *_: None, root=tmp, evdir=os.path.join(tmp, "ev"), selfval=False)
+        got = {0: "silent", 1: "fire", 2: "error"}[rc]
+        return (name, want, got)
+    finally:
+        shutil.rmtree(tmp, ignore_errors=True)
+
+
+def run_property(prop, tier, rules, out=print, root=None, evdir=None, selfval=True):
     """rules: list of (rule_id, tier_tag 'P1'|'P2', fn, title).  Returns exit code."""
     t0 = time.time()
     try:
@@ -162,11 +262,27 @@ def run_property(prop, tier, rules, out=print, root=None, evdir=None):
         vpaths.append(p)
         out(f"{o.loc} {o.rule} {o.text}: {o.detail}")
         out(f"VIOLATION property={prop} replay={p}")
-    _write_evidence(evpath, prop, tier, seed, ctx, ran, kf, t0, viol=viol)
+    sv = None
+    if tier == "thorough" and selfval and root is None:
+        try:
+            sv = self_validate(prop, rules)
+        except Exception as e:  # the self-validation must never decide the verdict
+            out(f"SELF-VALIDATION-SKIPPED {type(e).__name__}: {e}")
+        if sv is not None:
+            fired = [r for r in sv if r[1] == "fire"]
+            silent = [r for r in sv if r[1] == "silent"]
+            bad = [r for r in sv if r[2] != "skipped" and r[1] != r[2]]
+            out(
+                f"{prop} self-validation: {sum(1 for r in fired if r[2] == 'fire')}/{sum(1 for r in fired if r[2] != 'skipped')} must-fire variants reported, "
+                f"{sum(1 for r in silent if r[2] == 'silent')}/{sum(1 for r in silent if r[2] != 'skipped')} must-stay-silent variants silent"
+            )
+            for r in bad:
+                out(f"SELF-VALIDATION-MISMATCH {prop} variant={r[0]} expected={r[1]} got={r[2]}")
+    _write_evidence(evpath, prop, tier, seed, ctx, ran, kf, t0, viol=viol, sv=sv)
     return 1 if viol else 0
 
 
-def _write_evidence(path, prop, tier, seed, ctx, ran, kf, t0, viol=(), error=None):
+def _write_evidence(path, prop, tier, seed, ctx, ran, kf, t0, viol=(), error=None, sv=None):
     if ctx is not None:
         obs = ctx.obs
         distinct = len({o.key for o in obs})
@@ -195,6 +311,17 @@ def _write_evidence(path, prop, tier, seed, ctx, ran, kf, t0, viol=(), error=Non
             "trusted_base": ["CPython ast module (parser)", "the rule definitions in /verif/ovldlint/rules"],
             "exhaustive": True,
         }
+        if sv is not None:
+            cov["self_validation"] = {
+                "what": "this property's rules re-run on scratch copies of the current tree with one variant applied each (single-edit variants from the mutation survey, reverse patches of the repaired defects, behaviour-preserving refactorings, and changes seeded by independent sub-agents); validates the checker, never the verdict",
+                "must_fire": sum(1 for r in sv if r[1] == "fire" and r[2] != "skipped"),
+                "fired": sum(1 for r in sv if r[1] == "fire" and r[2] == "fire"),
+                "must_stay_silent": sum(1 for r in sv if r[1] == "silent" and r[2] != "skipped"),
+                "silent": sum(1 for r in sv if r[1] == "silent" and r[2] == "silent"),
+                "skipped_no_longer_applicable": sum(1 for r in sv if r[2] == "skipped"),
+                "mismatches": [list(r) for r in sv if r[2] != "skipped" and r[1] != r[2]],
+                "fired_variants": sorted(r[0] for r in sv if r[1] == "fire" and r[2] == "fire"),
+            }
     else:
         cov = {"explanation": f"analysis error: {error}", "obligations": 0, "discharged": 0}
     ev = {
